@@ -37,7 +37,7 @@ use crate::{
     connection_provider::{ConnectionProvider, TlsConfig},
     name_server::{ConnectionPolicy, NameServer},
     net::{
-        DnsError, NetError, NoRecords,
+        DnsError, ForwardNSData, NetError, NoRecords,
         runtime::{RuntimeProvider, Time},
         xfer::{DnsHandle, Protocol},
     },
@@ -195,7 +195,13 @@ impl<P: ConnectionProvider> DnsHandle for NameServerPool<P> {
             });
 
             let response = lookup.await;
-            let mut response = response?;
+            let mut response = match response {
+                Ok(response) => response,
+                // Negative responses carry records too: the answer filter applies to the address
+                // records of their authority section and referral glue as well.
+                Err(error) if !acs.allows_all() => return Err(strip_denied_addresses(error, &acs)),
+                Err(error) => return Err(error),
+            };
 
             if acs.allows_all() {
                 return Ok(response);
@@ -427,6 +433,40 @@ impl<P: ConnectionProvider> PoolState<P> {
             }
         }
     }
+}
+
+/// Drops the address records the answer filter denies from the payload of a `NoRecordsFound` error.
+fn strip_denied_addresses(mut error: NetError, acs: &AccessControlSet) -> NetError {
+    let NetError::Dns(DnsError::NoRecordsFound(no_records)) = &mut error else {
+        return error;
+    };
+
+    let allowed = |record: &Record| !matches!(record.data.ip_addr(), Some(ip) if acs.denied(ip));
+
+    if let Some(ns) = no_records.ns.take() {
+        no_records.ns = Some(
+            ns.iter()
+                .map(|forward| ForwardNSData {
+                    ns: forward.ns.clone(),
+                    glue: forward.glue.iter().filter(|r| allowed(r)).cloned().collect(),
+                })
+                .collect::<Vec<_>>()
+                .into(),
+        );
+    }
+
+    if let Some(authorities) = no_records.authorities.take() {
+        let kept = authorities
+            .iter()
+            .filter(|r| allowed(r))
+            .cloned()
+            .collect::<Vec<_>>();
+        if !kept.is_empty() {
+            no_records.authorities = Some(kept.into());
+        }
+    }
+
+    error
 }
 
 /// Compare two errors to see if one contains a server response.
